@@ -132,6 +132,47 @@ def extract(path, kind, name, impl_of=None):
     return {"text": src[a:b], "line_start": line_a, "line_end": line_b, "header_offset": h - a}
 
 
+def extract_region(path, fn_name, impl_of, from_anchor, to_anchor, from_nth=0, to_nth=0):
+    """Whole lines of function `fn_name` from the line containing from_anchor (its from_nth-th occurrence
+    inside the function) through the to_nth-th line containing to_anchor at or after it."""
+    src = open(path, encoding="utf-8").read()
+    a, b, h = find_item(src, "fn", fn_name, impl_of)
+    first_line = src.count("\n", 0, a) + 1
+    lines = src[a:b].split("\n")
+    hits = [i for i, l in enumerate(lines) if from_anchor in l]
+    if len(hits) <= from_nth:
+        raise ExtractError("region start anchor %r (occurrence %d) not found in %s" % (from_anchor, from_nth, fn_name))
+    i0 = hits[from_nth]
+    hits2 = [i for i, l in enumerate(lines) if i >= i0 and to_anchor in l]
+    if len(hits2) <= to_nth:
+        raise ExtractError("region end anchor %r (occurrence %d) not found after the start anchor in %s" % (to_anchor, to_nth, fn_name))
+    i1 = hits2[to_nth]
+    text = "\n".join(lines[i0:i1 + 1])
+    # the region must be brace-balanced (whole statements)
+    d = 0
+    for t in code_tokens(text):
+        if t.kind == "punct" and t.text in OPEN:
+            d += 1
+        elif t.kind == "punct" and t.text in CLOSE:
+            d -= 1
+            if d < 0:
+                raise ExtractError("region %r..%r is not brace-balanced" % (from_anchor, to_anchor))
+    if d != 0:
+        raise ExtractError("region %r..%r is not brace-balanced" % (from_anchor, to_anchor))
+    return {"text": text, "line_start": first_line + i0, "line_end": first_line + i1, "header_offset": 0}
+
+
+def normalise_region(text, log=None):
+    """Apply the loop / closure rules (A2, A4, A5, N1, N2) to a statement region by normalising it as the
+    body of a dummy function and taking the body back out."""
+    wrapped = "fn region__() {\n" + text + "\n}"
+    out, loops = normalise_fn(wrapped, log=log)
+    ls = out.split("\n")
+    # A3 moved the dummy's brace to its own line: drop `fn region__()`, `{` and the final `}`
+    assert ls[0].strip() == "fn region__()" and ls[1].strip() == "{" and ls[-1].strip() == "}", ls[:2]
+    return "\n".join(ls[2:-1]), loops
+
+
 # --------------------------------------------------------------------------------------
 # normalisation
 
